@@ -85,8 +85,9 @@ def apply(obj, act, args, n, fresh_other=None):
     if act == "Rc":
         return obj.rc()
     if act == "TakePositions":
-        cols, neg = args
-        return obj.take_positions(list(cols), negate=True) if neg else obj.take_positions(list(cols))
+        cols, neg, form = args
+        cols = list(cols) if form == "list" else tuple(cols) if form == "tuple" else numpy.array(cols, dtype=int)
+        return obj.take_positions(cols, negate=True) if neg else obj.take_positions(cols)
     if act == "TakeSeqs":
         names, neg = args
         return obj.take_seqs(list(names), negate=True) if neg else obj.take_seqs(list(names))
